@@ -20,5 +20,13 @@ def run(ctx):
     tasks = [{"seed": ctx.seed, "shard": i, "count": count, "steps": steps, "nmax": 8, "monitors": ["rebuild"]}
              for i in range(shards)]
     ctx.map("vlib.histrun", "history_task", tasks, timeout=3000)
+    # (b) the real samplers: rebuild_equal as a postcondition of every sample_tree (direct calls and chain runs)
+    tasks = [{"seed": ctx.seed, "shard": i, "count": 8 if quick else 120, "moves": 8, "own": "C06"} for i in range(shards)]
+    ctx.map("checks.c07", "sampler_task", tasks, timeout=3000)
+    tasks = [{"seed": ctx.seed, "shard": i, "count": 3 if quick else 30, "iters": 5 if quick else 10, "own": "C06"}
+             for i in range(shards)]
+    ctx.map("checks.c07", "chain_task", tasks, timeout=3000)
+    if ctx.counters.get("boundary_rebuild", 0) < 200:
+        ctx.inconc("fewer than 200 sampler-boundary rebuild comparisons")
     if ctx.counters.get("rebuild_evaluations", 0) < 1000:
         ctx.inconc("fewer than 1000 rebuild comparisons")
